@@ -33,7 +33,7 @@ pub fn def() -> PropDef {
 }
 
 fn params(t: Tier) -> (usize, usize, usize) {
-    t.pick((6, 0, 2), (8, 1, 2))
+    t.pick((6, 0, 2), (6, 1, 2))
 }
 
 fn sources() -> Vec<Name> {
